@@ -92,6 +92,7 @@ class Contract:
     properties = ()
     doc = ''
     deductive = True        # False: runtime contract only (bounded stand-in), with `reason`
+    raises_exact = True     # False: `raises` lists what the function *may* raise (no "must not raise otherwise")
 
     def __init__(self):
         self.fn, self.owner, self.kind = resolve_target(self.target)
@@ -541,6 +542,9 @@ def verify_contract(con, registry, config=None):
         except OutOfSubset as e:
             rep.error = 'out-of-subset: %s' % e
             return rep
+        except z3.Z3Exception as e:
+            rep.error = 'out-of-subset: encoding limit (%s)' % e
+            return rep
         tag = con.target.split('::')[1] + (('[' + case + ']') if case else '')
         if not results:
             rep.error = 'vacuous: no feasible path under requires (case %r)' % case
@@ -567,7 +571,7 @@ def verify_contract(con, registry, config=None):
                     con.proof(p, a, res.value, nm, case)
                     if not p.closed:
                         p.qed()
-                for exc, cond in raise_specs:
+                for exc, cond in (raise_specs if con.raises_exact else []):
                     Proof('%s.noraise.%s' % (pname, exc.__name__), res.pc, T.NOT(T.zbool(cond)), rep.obligations,
                           {'kind': 'post', 'path': pname}).qed()
             elif res.kind == 'raise':
